@@ -18,7 +18,7 @@
 EXTENDS Integers, Sequences, FiniteSets, TLC, Json
 
 CONSTANTS Subs, Objs, Bcasters, MaxOps, MaxEv,
-          AllowStop, SendTargets, SendSenders,
+          AllowStop, AllowRespawn, SendTargets, SendSenders,
           KeyByValue, DropDead, Export
 
 VARIABLES inbox,    \* the stream's inbox
@@ -78,6 +78,14 @@ StopSub(p) ==
   /\ Op([op |-> "stop", p |-> p, o |-> 0, b |-> "-", target |-> "-", sender |-> "-", id |-> 0])
   /\ UNCHANGED <<inbox, subs, got, want, asub, nev, nmsg, gen>>
 
+(* a subscriber stops and, from inside its Stopped handler, spawns a successor under the same id which subscribes:
+   the successor's Subscribe reaches the stream before the ActorStoppedEvent of the old incarnation does *)
+StopRespawn(p) ==
+  /\ CanOp /\ AllowRespawn /\ alive[p]
+  /\ inbox' = Append(inbox, [t |-> "sub", p |-> p, o |-> 1, e |-> UserEv("-", 0)])
+  /\ Op([op |-> "respawn", p |-> p, o |-> 1, b |-> "-", target |-> "-", sender |-> "-", id |-> 0])
+  /\ UNCHANGED <<subs, alive, got, want, asub, nev, nmsg, gen>>
+
 (* Engine.Send / SendWithSender to something that cannot be delivered *)
 SendUndeliverable(t, s) ==
   /\ CanOp /\ t \in SendTargets /\ s \in SendSenders
@@ -123,6 +131,7 @@ Process ==
 Next == \/ \E p \in Subs, o \in Objs : Subscribe(p, o) \/ Unsubscribe(p, o)
         \/ \E b \in Bcasters : Broadcast(b)
         \/ \E p \in Subs : StopSub(p)
+        \/ \E p \in Subs : StopRespawn(p)
         \/ \E t \in SendTargets, s \in SendSenders : SendUndeliverable(t, s)
         \/ Process
 
